@@ -17,7 +17,7 @@ MANIFEST = dict(
          "model, which covers all wake-up orders, jitter and any number of waiters. Tie = trace validation: the real task set started by GeckoAsyncSpa._connect on the "
          "virtual-time loop, queue instrumented from outside, arrival scripts of known / unknown / unsolicited / mis-addressed / malformed datagrams; every observed "
          "put / pop / mark / unhandled-consumer step must be enabled in the model and have the model's outcome."
-         " Since session 3: the connection's packet consumer is also modelled at the byte level as the long-lived object it is (Model/PacketConsumer.lean over C04's regex model): consume_eq_spec (over any history and whatever the object held before, what is re-queued is exactly the DATAS of the frames that parse and carry this connection's address and identifier pair), misaddressed_frame_no_effect / addressed_frame_requeued for arbitrary payloads; tied by feeding histories to the real handler + the real _async_on_packet exactly as consume() does, plus a re-queue conservation monitor on the whole task set. Session 4: the client event handler really suspends (0/250/0/120 ms by round) so peek and pop are separated by other consumers turns; a consumer task that ends with an exception is a violation. The atomic consumer step of the model is itself proved: the suspension skeletons of the three consuming coroutines are regenerated from the source, a static analysis proved sound for every trace (scan_sound) shows no suspension point between looking at the head and popping it, and atomic_sections lifts that to every schedule of the event loop (peek_pop_atomic_in_every_schedule). The packet-consumer correspondence observes the real protocol queue; a backlog run of 150 datagrams with a conservation check at the end.",
+         " Since session 3: the connection's packet consumer is also modelled at the byte level as the long-lived object it is (Model/PacketConsumer.lean over C04's regex model): consume_eq_spec (over any history and whatever the object held before, what is re-queued is exactly the DATAS of the frames that parse and carry this connection's address and identifier pair), misaddressed_frame_no_effect / addressed_frame_requeued for arbitrary payloads; tied by feeding histories to the real handler + the real _async_on_packet exactly as consume() does, plus a re-queue conservation monitor on the whole task set. Session 4: the client event handler really suspends (0/250/0/120 ms by round) so peek and pop are separated by other consumers turns; a consumer task that ends with an exception is a violation. The atomic consumer step of the model is itself proved: the suspension skeletons of the three consuming coroutines are regenerated from the source, a static analysis proved sound for every trace (scan_sound) shows no suspension point between looking at the head and popping it, and atomic_sections lifts that to every schedule of the event loop (peek_pop_atomic_in_every_schedule). The packet-consumer correspondence observes the real protocol queue; a backlog run of 150 datagrams with a conservation check at the end. Session 5: unwrapper_overwrites_its_fields_for_every_datagram (+ _traces) over the regenerated skeleton of the unwrapper's handle.",
     note="partial: the head-of-line bound is proved under the fairness hypothesis 'the unhandled consumer runs when its 100 ms timer is due' (no event-loop stall; "
          "real timer skew is outside); the safety clauses need no such hypothesis. Trusted: Lean kernel; asyncio semantics (no pre-emption between awaits); the harness "
          "instrumentation (monkeypatched AsyncPeekableQueue recording caller frames). A consumer whose async_handle raises on a malformed body dies (Python task semantics); "
